@@ -35,10 +35,7 @@ def parseMsgOpts (s : String) : Option Extract.Opts :=
                    usePath := o.usePath && p.usePath,
                    extractPath := if p.extractPath.isSome then p.extractPath else o.extractPath })) {}
 
-def msgWorld (root : Bool) : Fs.St :=
-  { root := root, cwd := ["root".toUTF8.toList], absPrefix := [],
-    ents := [(["root".toUTF8.toList], .dir 0o755 1000), (["outside".toUTF8.toList], .dir 0o755 1000),
-             (["outside".toUTF8.toList, "canary".toUTF8.toList], .file "canary".toUTF8.toList 0o644 1000)] }
+def msgWorld (root : Bool) : Fs.St := sandboxFs root []
 
 def opMessages : List String → Option String
   | ["msgt", opts, filters, hex] => do
